@@ -7,6 +7,7 @@ import (
 	"os"
 	"sync"
 
+	"helm.sh/helm/v4/pkg/action"
 	chart "helm.sh/helm/v4/pkg/chart/v2"
 	rspb "helm.sh/helm/v4/pkg/release/v1"
 	"helm.sh/helm/v4/pkg/storage"
@@ -26,12 +27,25 @@ func cmdStress(args []string) {
 	g := fs.Int("g", 8, "goroutines")
 	k := fs.Int("k", 300, "operations per goroutine")
 	fs.Parse(args)
-	for _, drv := range []string{"memory", "secret", "configmap"} {
+	// "init-*": the storage backend as action.Configuration.Init builds it (its Kubernetes client is created lazily on
+	// first use, and here the first use of all goroutines is simultaneous)
+	for _, drv := range []string{"memory", "secret", "configmap", "init-secret", "init-configmap"} {
 		var d driver.Driver
 		sim := simcluster.New()
 		f := &simcluster.Factory{RT: sim.Transport(1), Namespace: scen.RelNS}
 		cs, _ := f.KubernetesClientSet()
+		var st *storage.Storage
 		switch drv {
+		case "init-secret", "init-configmap":
+			cfg := new(action.Configuration)
+			if err := cfg.Init(&simcluster.Getter{F: f}, scen.RelNS, drv[len("init-"):]); err != nil {
+				fmt.Printf("STRESS-PANIC driver=%s Configuration.Init: %v\n", drv, err)
+				continue
+			}
+			st = cfg.Releases
+		}
+		switch drv {
+		case "init-secret", "init-configmap":
 		case "memory":
 			m := driver.NewMemory()
 			m.SetNamespace(scen.RelNS)
@@ -41,7 +55,10 @@ func cmdStress(args []string) {
 		default:
 			d = driver.NewConfigMaps(cs.CoreV1().ConfigMaps(scen.RelNS))
 		}
-		st := storage.Init(d)
+		if st == nil {
+			st = storage.Init(d)
+		}
+		start := make(chan struct{})
 		var wg sync.WaitGroup
 		panics := make(chan string, *g)
 		for w := 0; w < *g; w++ {
@@ -54,6 +71,7 @@ func cmdStress(args []string) {
 					}
 				}()
 				rnd := rand.New(rand.NewSource(*seed*1000 + int64(w)))
+				<-start
 				for i := 0; i < *k; i++ {
 					name := []string{"ra", "rb"}[rnd.Intn(2)]
 					ver := 1 + rnd.Intn(4)
@@ -81,6 +99,7 @@ func cmdStress(args []string) {
 				}
 			}(w)
 		}
+		close(start)
 		wg.Wait()
 		close(panics)
 		for p := range panics {
